@@ -21,14 +21,18 @@
        C19_records_from_before: every metabase record of every shard afterwards is a record some
        shard had before), and C19_moved: every object a source lists and serves -- tombstone and
        lock objects included -- is handed to the fault handler or held by a remaining shard.
-       NOT proved: equality of the lock status and the "not lost" direction as a theorem of their
-       own (they need one-header-per-ID and garbage-monotonicity invariants that were not
-       finished); both are checked on the real engine by the correspondence run only (classes
-       c19_status_good / deviations 2, 3 of Engine/EvacCheck.v). *)
+       The "not lost" direction for the tombstone status: C19_tombstone_kept_partial (a tombstone
+       object a source lists and serves is handed or stored with its record by a remaining
+       shard, if its ID carries one header everywhere, no remaining shard is in a degraded
+       read-write mode and none stores the tombstone's data without its record).
+       NOT proved: equality of the LOCK status (it needs, on top, monotonicity of the garbage
+       status of the lock object through re-puts; not finished); it is checked on the real engine
+       by the correspondence run only (class c19_status_good / deviation 2 of Engine/EvacCheck.v). *)
 From Coq Require Import List NArith Bool Arith Permutation.
 Import ListNotations.
 From NV Require Import Engine.Model Engine.Spec Engine.Check Engine.Evac Engine.EvacSpec
-                       Engine.EvacProofs Engine.EvacPreserved Engine.EvacStatus Engine.EvacWitness.
+                       Engine.EvacProofs Engine.EvacPreserved Engine.EvacStatus Engine.EvacTomb
+                       Engine.EvacWitness.
 Local Open Scope N_scope.
 
 (* the paged listing (page size regenerated from the code) is the raw-ordered list of the IDs
@@ -107,6 +111,20 @@ Theorem C19_tombstone_not_created : forall t e srcs ign fh rank ords st j s x,
   tombstoned s x = true -> tombstonedb st x = true.
 Proof. exact tombstone_not_created. Qed.
 
+(* no removal status is lost for a tombstone object that can be moved: premise PT = the
+   tombstone's ID carries the header r on every shard; a remaining shard without metabase is
+   read-only; no remaining shard stores the tombstone's data without its record *)
+Theorem C19_tombstone_kept_partial : forall t e srcs ign fh rank ords T x r b,
+  mk r = KTS x ->
+  forall st x' i s m,
+  PT srcs T r st ->
+  evacuate t e srcs ign fh rank ords st = (EvOk, x') ->
+  In i srcs -> nth_error st i = Some s -> lookup T (s_meta s) = Some r ->
+  sh_get s e T false = (SFound b, m) -> listed s T = true -> In T rank ->
+  In T (ev_handed x') \/
+  exists j s', is_src srcs j = false /\ nth_error (ev_st x') j = Some s' /\ tombstoned s' x = true.
+Proof. exact tombstone_kept_partial. Qed.
+
 (* the status equality fails: a tombstone is lost and Evacuate reports success *)
 Theorem C19_status_unchanged_refuted :
   exists u n ops srcs rank ords x,
@@ -132,7 +150,26 @@ Example C19_example :
   lockedb (rem_shards [1;0]%nat (ev_st (snd ev_ok))) (epoch en_ok) 0 = true.
 Proof. exact ok_example. Qed.
 
+(* non-vacuity of C19_tombstone_kept_partial: in the same engine the tombstone object 3 (for
+   object 1) satisfies PT and is listed and served by source shard 0 *)
+Example C19_tombstone_example :
+  PT [1;0]%nat 3 (MRec (KTS 1) None) (shards en_ok) /\
+  exists s, nth_error (shards en_ok) 0 = Some s /\ lookup 3 (s_meta s) = Some (MRec (KTS 1) None) /\
+            sh_get s (epoch en_ok) 3 false = (SFound 4, false) /\ listed s 3 = true.
+Proof.
+  split.
+  - remember (shards en_ok) as st eqn:E. vm_compute in E. subst st. split.
+    + intros j s H r' Hl.
+      destruct j as [|[|[|[|j]]]]; simpl in H; try (destruct j; discriminate); inversion H; subst; clear H;
+        vm_compute in Hl; inversion Hl; reflexivity.
+    + intros j s Hj H.
+      destruct j as [|[|[|[|j]]]]; simpl in H; try (destruct j; discriminate); inversion H; subst; clear H;
+        try (vm_compute in Hj; discriminate); split; vm_compute; auto; intros; discriminate.
+  - vm_compute. eexists. repeat split.
+Qed.
+
 Print Assumptions C19_sources_unchanged.
 Print Assumptions C19_moved.
 Print Assumptions C19_preserved_partial.
 Print Assumptions C19_tombstone_not_created.
+Print Assumptions C19_tombstone_kept_partial.
